@@ -47,9 +47,7 @@ def case_split_sync(ctx, m):
     import spikeglx
     words = [ctx.bv(f"w{i}", 16) for i in range(m)]
     arr = arrays.mk(words, tag=np.dtype(np.int16))
-    b_w = purity.snap(arr)
     out = spikeglx.split_sync(arr)
-    ctx.oblige("split_sync_leaves_its_input_untouched", all(a is b for a, b in zip(b_w[1], purity.snap(arr)[1])))
     ctx.oblige("shape_m_by_16", out.shape == (m, 16))
     ctx.oblige("dtype_int8", getattr(out, "tag", None) == np.dtype(np.int8))
     for i in range(m):
@@ -94,9 +92,7 @@ def case_fronts_1d(ctx, n, binary):
     xs = [ctx.int(f"x{i}", lo, hi) for i in range(n)]
     step = 1 if binary else ctx.int("step", 1, 1 << 15)
     x = arrays.mk(xs, tag=np.dtype(np.int16))
-    b_x = purity.snap(x)
     ind, sign = u.fronts(x, step=step)
-    purity.oblige_untouched(ctx, "fronts_leaves_its_input_untouched", x, b_x)
     _edges_oracle(ctx, xs, n, step, "fronts", list(ind), list(sign))
     r = u.rises(arrays.mk(xs, tag=np.dtype(np.int16)), step=step)
     _edges_oracle(ctx, xs, n, step, "rises", list(r), polarity=1)
